@@ -17,7 +17,7 @@ from fractions import Fraction
 
 from common import CORPUS_DIR, call
 
-RULE = ("histories: a well-formed network of 3..10 grid lanelets (random pred/succ/adjacency incl. mutual adjacency, 0..4 shared "
+RULE = ("histories: a well-formed network of 3..10 grid lanelets (ids from 0 upwards; the spatial index of the source network fresh or stale — lanelets added with add_lanelet(rtree=False) after the index was built, remove_lanelet(rtree=False); random pred/succ/adjacency incl. mutual adjacency, 0..4 shared "
         "signs and 0..3 lights, stop lines whose refs are subsets of the lanelet's refs, 0..2 intersections with 1..3 incomings "
         "spanning arbitrary lanelets, crossings) followed by 1..5 operations drawn from LaneletNetwork.remove_lanelet / "
         "remove_traffic_sign / remove_traffic_light / remove_intersection, Scenario.remove_lanelet (lists, with and without "
@@ -53,7 +53,7 @@ REQUIRED_BUCKETS = ["net_remove_lanelet", "net_remove_sign", "net_remove_light",
                     "scn_remove_signs", "scn_remove_lights", "scn_remove_inter", "cut_out", "from_list",
                     "cut:shape", "cut:types", "cut:incoming-dropped", "cut:intersection-dropped", "cut:sign-dropped",
                     "hanging:sign-removed", "hanging:sign-kept-shared", "lanelet-ref-cleaned", "adjacency-cleaned",
-                    "stopline-ref-cleaned", "intersection-ref-cleaned", "error:key", "stale:id-still-in-pool", "stream:wf", "stream:malformed"]
+                    "stopline-ref-cleaned", "intersection-ref-cleaned", "error:key", "stale:id-still-in-pool", "cut:shape-on-stale-index", "id0:adjacent-lanelet-removed", "stream:wf", "stream:malformed"]
 
 TYPES = ["URBAN", "HIGHWAY", "BUS_LANE", "SIDEWALK", "CROSSWALK", "INTERSECTION"]
 CELL_W, CELL_H, LANE_H = 10, 4, 3
@@ -72,7 +72,9 @@ def gen_case(ctx):
     ninc = [r.randint(1, 3) for _ in range(ni)]
     total = nl + ns + nt + ni + sum(ninc)
     hi = r.choice([40, 60, 200, 10 ** 6])
-    pool = r.sample(range(1, max(hi, total + 5)), total)
+    pool = r.sample(range(0, max(hi, total + 5)), total)
+    if 0 not in pool and r.random() < 0.3:     # id 0 is a valid id of every element kind; mostly give it to a lanelet
+        pool[r.randrange(nl) if r.random() < 0.7 else r.randrange(total)] = 0
     lids, pool = pool[:nl], pool[nl:]
     sids, pool = pool[:ns], pool[ns:]
     tids, pool = pool[:nt], pool[nt:]
@@ -172,7 +174,7 @@ def gen_case(ctx):
         k = r.choice(kinds)
         if k == "net_remove_lanelet":
             x = r.choice(alive_l + ghost[:1]) if alive_l else ghost[0]
-            ops.append({"op": k, "x": x})
+            ops.append({"op": k, "x": x, "rtree": r.random() < 0.7})
             if x in alive_l:
                 alive_l.remove(x); dead_l.append(x)
         elif k == "scn_remove_lanelets":
@@ -254,7 +256,10 @@ def gen_case(ctx):
             ops.append({"op": k, "ids": ids, "cleanup": r.random() < 0.85})
     if not ops:
         ops.append({"op": "net_remove_lanelet", "x": lids[0]})
-    return {"stream": stream, "lanelets": lanelets, "signs": signs, "lights": lights, "inters": inters, "ops": ops}
+    # spatial index of the source network: built after `indexed` lanelets, the others arrive with add_lanelet(rtree=False)
+    indexed = nl if r.random() < 0.6 else r.randint(0, nl - 1)
+    return {"stream": stream, "lanelets": lanelets, "signs": signs, "lights": lights, "inters": inters, "indexed": indexed,
+            "ops": ops}
 
 
 # ------------------------------------------------------------------------------------------------ building the real objects
@@ -274,7 +279,10 @@ def build(case):
                                                    TrafficLightState)
     from commonroad.scenario.traffic_sign import TrafficSign, TrafficSignElement, TrafficSignIDZamunda
     ln = LaneletNetwork()
-    for la in case["lanelets"]:
+    indexed = case.get("indexed", len(case["lanelets"]))
+    for n_added, la in enumerate(case["lanelets"]):
+        if n_added == indexed:
+            ln._create_strtree()     # the lanelets after this point are added with the batch switch and never indexed
         x0, y0, x1, y1 = _rect_of(la)
         xs = [x0, x1] if la["nv"] == 2 else [x0, (x0 + x1) / 2, x1]
         left = np.array([[x, y1] for x in xs], dtype=float)
@@ -291,7 +299,8 @@ def build(case):
                                line_marking_left_vertices=LineMarking.DASHED, stop_line=st,
                                lanelet_type={LaneletType[t] for t in la["types"]}, traffic_signs=set(la["signs"]),
                                traffic_lights=set(la["lights"])), rtree=False)
-    ln._create_strtree()
+    if indexed >= len(case["lanelets"]):
+        ln._create_strtree()
     for s in case["signs"]:
         el = TrafficSignElement({"U1": TrafficSignIDZamunda.MAX_SPEED, "U2": TrafficSignIDZamunda.STOP,
                                  "U3": TrafficSignIDZamunda.YIELD, "U4": TrafficSignIDZamunda.MIN_SPEED}[s["elem"]], [s["val"]])
@@ -414,6 +423,7 @@ class Impl:
     def __init__(self, case):
         self.case = case
         self.scn = build(case)
+        self.stale = case.get("indexed", len(case["lanelets"])) < len(case["lanelets"])   # spatial index misses lanelets
         self._remember()
 
     def _remember(self):
@@ -454,7 +464,12 @@ class Impl:
         from commonroad.scenario.scenario import Scenario
         k = op["op"]
         if k == "net_remove_lanelet":
-            return call(self.ln.remove_lanelet, op["x"]), {"op": k, "x": op["x"]}
+            if op.get("rtree", True):
+                self.stale = False
+                return call(self.ln.remove_lanelet, op["x"]), {"op": k, "x": op["x"]}
+            if self.ln.find_lanelet_by_id(op["x"]) is not None:
+                self.stale = True     # the index still holds the removed lanelet
+            return call(self.ln.remove_lanelet, op["x"], False), {"op": k, "x": op["x"]}
         if k == "net_remove_sign":
             return call(self.ln.remove_traffic_sign, op["x"]), {"op": k, "x": op["x"]}
         if k == "net_remove_light":
@@ -467,6 +482,8 @@ class Impl:
                 return None
             args = [{"id": int(o.lanelet_id), "signs": _ids(o.traffic_signs), "lights": _ids(o.traffic_lights)} for o in objs]
             arg = objs[0] if op.get("single") and len(objs) == 1 else objs
+            if self.ln.find_lanelet_by_id(int(objs[0].lanelet_id)) is not None:
+                self.stale = False    # LaneletNetwork.remove_lanelet (default rtree=True) rebuilds the index
             if op["ref"] and op.get("default_ref"):
                 res = call(self.scn.remove_lanelet, arg)
             else:
@@ -515,6 +532,7 @@ class Impl:
         from commonroad.scenario.scenario import Scenario
         self.scn = Scenario(0.1)
         self.scn.add_objects(ln)
+        self.stale = False
         self._remember()
 
     def ids(self):
@@ -850,6 +868,8 @@ def run_case(ctx, case, with_model=True):
     B = init["net"]
     oracle_on = wf_stream and py_nodangling(B) and py_wf(B)
     for step, op in enumerate(case["ops"]):
+        if op["op"] == "cut_out" and op["shape"] is not None and impl.stale:
+            ctx.tag("cut:shape-on-stale-index")
         ids_before = set(impl.ids())
         present_before = ({l["id"] for l in B["lanelets"]} | {x[0] for x in B["signs"]} | {x[0] for x in B["lights"]}
                           | {i["id"] for i in B["inters"]})
@@ -869,6 +889,9 @@ def run_case(ctx, case, with_model=True):
             ctx.tag("error:" + err)
         mops.append(mop)
         sels.append(canon_selection(op, mop, B))
+        if any(l["id"] == 0 for l in B["lanelets"]) and not any(l["id"] == 0 for l in A["lanelets"]) and \
+                any(0 in (l["adjL"], l["adjR"]) for l in B["lanelets"] if any(a["id"] == l["id"] for a in A["lanelets"])):
+            ctx.tag("id0:adjacent-lanelet-removed")
         trace.append({"net": A, "ids": impl.ids(), "err": err, "nd": py_nodangling(A), "wf": py_wf(A)})
         if oracle_on and not (op["op"] in ("cut_out", "from_list") and not op["cleanup"]):
             rep = Rep(ctx, case, step, op)
